@@ -518,6 +518,16 @@ def _observe(case):
         o = _call(case)
         if case['t'] in ('page', 'crit'):
             b = _call(_benign(case))
+            if case['t'] == 'crit' and case['trigger'] == 'badurl' and b['status'] != o['status']:
+                # whether urlsplit refuses '/x://[...]' depends on the characters between the brackets (and on
+                # app_name_header cutting the path): that is no statement of C20.  Compare with a plain-letter
+                # request that ends on the same kind of page: the last-resort page, or the ordinary 404 page.
+                base = {k: v for k, v in case.items() if k not in ('trigger', 'xapp', 'app_hdr', 'dmap')}
+                for alt in (dict(base, t='crit', trigger='hdr'), dict(base, t='page', kind='404')):
+                    b2 = _call(_benign(alt))
+                    if b2['status'] == o['status']:
+                        b = b2
+                        break
             o['twin_body'] = b['body']
             o['twin_status'] = b['status']
             o['twin_ctype'] = b['ctype']
@@ -763,6 +773,11 @@ def encode(case):
     o = _observe(case)
     url = o['url'] if o['url'] is not None else ''
     debug = 1 if case.get('debug') else 0
+    if case['t'] == 'crit' and case['trigger'] == 'badurl' and o['crit_exc'] is None and o['url'] is not None:
+        # urlsplit accepted this path after all (depends on the bracketed text / app_name_header): the framework
+        # produced its ordinary 404 page, which is what the model is asked for
+        ints, strs = _page_payload(dict(case, t='page', kind='404'), o)
+        return [0] + _nonprintable(*strs) + ints
     if case['t'] == 'crit':
         tb = o['tbs'][-1] if o['tbs'] else ''
         exc = o['crit_exc']
